@@ -367,6 +367,7 @@ func init() {
 			switch {
 			case c.Idx == 0:
 				c17Shapes(c)
+				round8Hand(c, "C17")
 			case c.Idx%10 == 1:
 				c17Arith(c)
 			default:
